@@ -157,6 +157,9 @@ def render(ir, n):
     e("  return acc + ring.len();")
     e("}")
     e('print(("ev", "sum", run(%d)));' % n)
+    # what a second interpreter on the same thread, or the same one after a reset, must see exactly like the first: the classes
+    # of freshly built and of literal values, and a string method
+    e('print(("ev", "types", type("he" + "llo") == String, type("hello") == String, type([1]) == Vec, type((1, 2)) == Tuple, type({}) == HashMap, type(1..2) == Range, "hello".len(), IndexError != ValueError));')
     return "\n".join(out) + "\n"
 
 
@@ -185,6 +188,16 @@ def stats_of(hist):
         if isinstance(e, list) and e and isinstance(e[0], dict) and "stats" in e[0]:
             return e[0]["stats"]
     return None
+
+
+def types_of(prog):
+    for e in prog["events"]:
+        if isinstance(e, list) and len(e) >= 2 and e[0] == {"s": "types"}:
+            return e[1:]
+    return None
+
+
+TYPES_OK = [{"b": True}] * 6 + [{"n": "4014000000000000"}, {"b": True}]
 
 
 def checksum_of(hist):
@@ -278,6 +291,9 @@ class C16:
             if not out.get("ok"):
                 res["violation"] = {"class": "workload-error", "msg": "[%s] loop program ended with %s" % (label, json.dumps(out)[:300])}
                 return res
+            if types_of(h["programs"][0]) != TYPES_OK:
+                res["violation"] = {"class": "workload-error", "msg": "[%s] built-in classes are not what they should be: %s" % (label, json.dumps(types_of(h["programs"][0]))[:200])}
+                return res
             hs[label] = h
             mon = (h.get("gc") or {}).get("monitor") or {}
             if mode == "native":
@@ -321,6 +337,9 @@ class C16:
             if bad7:
                 res["violation"] = {"class": "workload-error", "msg": "[second interpreter] the same program fails on a second interpreter of the thread: %s" % json.dumps(bad7)[:300]}
                 return res
+            if types_of(h["programs"][-1]) != TYPES_OK:
+                res["violation"] = {"class": "second-interpreter-differs", "msg": "[second interpreter] built-in classes seen by the second interpreter of the thread: %s" % json.dumps(types_of(h["programs"][-1]))[:200]}
+                return res
             mon7 = (h.get("gc") or {}).get("monitor") or {}
             if mon7.get("n_bound", 0) > 0:
                 res["violation"] = {"class": "heap-bound", "msg": "[second interpreter] I1 violated at %d allocation(s): %s" % (
@@ -357,6 +376,9 @@ class C16:
             bad8 = [p_.get("outcome") for p_ in h["programs"] if p_.get("outcome", {}).get("err") or p_.get("outcome", {}).get("panic")]
             if bad8:
                 res["violation"] = {"class": "workload-error", "msg": "[reset rounds] the same program fails after a reset: %s" % json.dumps(bad8)[:300]}
+                return res
+            if any(types_of(h["programs"][pi_]) != TYPES_OK for pi_ in (2, 4) if pi_ < len(h["programs"])):
+                res["violation"] = {"class": "reset-interpreter-differs", "msg": "[reset rounds] built-in classes seen after a reset differ"}
                 return res
             mon8 = (h.get("gc") or {}).get("monitor") or {}
             if mon8.get("n_bound", 0) > 0:
